@@ -161,8 +161,11 @@ class RShell:
         built from coefficient x primitive norm (what gbasis calls norm_cont, computed independently)."""
         w = self.w
         pn = self.primnorms()
-        k = int(np.argmax(np.abs(self.coeffs).min(axis=1)))
-        return np.asarray(w[:, :, k] / (self.coeffs.T[:, None, k].astype(LD) * pn[None, :, k]), dtype=float)
+        out = np.zeros((self.M, self.ncart))
+        for m in range(self.M):
+            k = int(np.argmax(np.abs(self.coeffs[:, m])))  # a primitive with a non-zero coefficient in this column
+            out[m] = np.asarray(w[m, :, k] / (LD(self.coeffs[k, m]) * pn[:, k]), dtype=float)
+        return out
 
     def to_funcs(self):
         """matrix (nfunc, M*ncart) from normalised cartesian functions (segment-major) to functions"""
